@@ -51,11 +51,64 @@ pub fn main(args: &[String]) -> i32 {
             match r {
                 Some(r) => println!("{}", serde_json::to_string_pretty(&serde_json::json!({"result": r.result, "error": r.error.map(|e| e.message)})).unwrap()),
                 None => println!("no response; panics: {:?}", crate::engine::take_panics()),
+        // `nest-thresholds [kind ...]`: smallest depth per nesting kind whose parse kills a 2 MiB-stack worker
+        Some("nest-thresholds") => {
+            use crate::engine::{worker, Property, Verdict};
+            use crate::props::c02::{Case, Input, C02, MAX_DEPTH};
+            let root = std::path::PathBuf::from(std::env::var("VERIF_ROOT").unwrap_or_else(|_| "/verif".into()));
+            let level: u8 = std::env::var("NEST_LEVEL").ok().and_then(|s| s.parse().ok()).unwrap_or(6);
+            let mut child = worker::Child::spawn("C02", &root);
+            let mut probe = |kind: &str, depth: u32, closed: bool| -> Option<String> {
+                let case = Case { input: Input::Nest { kind: kind.to_string(), depth, closed, capped: false }, level, doc: true, ext: 0, cache: false, special: false };
+                let req = serde_json::to_string(&case).unwrap();
+                match child.call(&req, 300) {
+                    worker::Reply::Line(_) => None,
+                    worker::Reply::Died(how) => {
+                        let tail = child.stderr_tail();
+                        child.respawn();
+                        match C02.on_abort(&case, &how, &tail, String::new()) {
+                            Verdict::Fail(f) => Some(f.sig),
+                            _ => Some("?".into()),
+                        }
+                    }
+                    worker::Reply::Timeout => {
+                        child.respawn();
+                        Some("timeout".into())
+                    }
+                }
+            };
+            for k in crate::gens::nesting::KINDS {
+                if args.len() > 1 && !args[1..].iter().any(|a| a == k.name) {
+                    continue;
+                }
+                for closed in [true, false] {
+                    if !closed && k.close.is_empty() {
+                        continue;
+                    }
+                    match probe(k.name, MAX_DEPTH, closed) {
+                        None => println!("{:22} closed={:5} no crash up to {}", k.name, closed, MAX_DEPTH),
+                        Some(sig) => {
+                            let (mut lo, mut hi) = (0u32, MAX_DEPTH); // lo passes, hi crashes
+                            let mut last = sig;
+                            while hi - lo > 1 {
+                                let mid = lo + (hi - lo) / 2;
+                                match probe(k.name, mid, closed) {
+                                    None => lo = mid,
+                                    Some(s) => {
+                                        hi = mid;
+                                        last = s;
+                                    }
+                                }
+                            }
+                            println!("{:22} closed={:5} min-crash-depth={:7} sig={}", k.name, closed, hi, last);
+                        }
+                    }
+                }
             }
             0
         }
         _ => {
-            eprintln!("tools: parse | lua_ast");
+            eprintln!("tools: parse | lua_ast | lsp | nest-thresholds");
             2
         }
     }
